@@ -11,9 +11,12 @@ Model of the thinning ("bounding potential") logic of JeLLyFysh, written branch 
 * `event_handler/two_composite_object_summed_bounding_potential_event_handler.py` (kind 4),
 * `event_handler/two_composite_object_cell_bounding_potential_event_handler.py`   (kind 5),
 * `event_handler/composite_object_cell_veto_event_handler.py`                  (kind 6),
+* `event_handler/root_unit_active_two_composite_object_summed_bounding_potential_event_handler.py` (kind 7),
+* `event_handler/root_unit_active_two_leaf_unit_event_handler.py` (kind 8, `send_out_state` only: it does not thin),
 * `event_handler/abstracts/abstracts.py` (`_exchange_velocity`, `_register_velocity_change_leaf_cnode`,
   `_commit_non_leaf_velocity_changes`, `_time_slice_unit`),
-* `event_handler/abstracts/composite_objects.py` (`_construct_leaf_units_of_composite_objects`),
+* `event_handler/abstracts/composite_objects.py` (`_construct_leaf_units_of_composite_objects`,
+  `_pass_composite_object_velocity`),
 * `base/exceptions.py` (`bounding_potential_warning`),
 * `potential/inverse_power_coulomb_bounding_potential/*` (`derivative`, the Python wrapper).
 
@@ -375,5 +378,137 @@ def sendComposite (o : Ops α) (c : Consts α) (kind : Nat) (useCharge : Bool) (
         calcComposite o c kind et st ai au locals targets bound (factorDerivative o qs) (dr.get o bound) qs pairs
           nextId (bcalls ++ pcalls) flCalls
       | _, _ => .err "AssertionError"
+
+/-! ### root-unit-active handlers (kinds 7, 8): a whole composite object moves
+
+* `event_handler/root_unit_active_two_composite_object_summed_bounding_potential_event_handler.py` (kind 7, thins),
+* `event_handler/root_unit_active_two_leaf_unit_event_handler.py` (kind 8: directly invertible, NO thinning; only
+  its `send_out_state` — time-slice the branches, pass the velocity — is modelled, the candidate time belongs to the
+  displacement correspondence of C02),
+* `event_handler/abstracts/composite_objects.py` (`CompositeObjectsLifting._pass_composite_object_velocity`),
+* `event_handler/abstracts/abstracts.py` (`_time_slice_unit`, `_time_slice_all_units_in_state`).
+
+Differences to kind 4 (leaf mode): ALL leaf units of the active composite object carry the velocity; the rates are
+summed over the double loop (active leaf, target leaf); the confirmation is written in the two-leaf style
+(`if factor_derivative > 0: if random.uniform(0, bound) < factor_derivative`), the warning gets the raw
+`factor_derivative`; no lifting scheme: a confirmed event moves the velocity of every active leaf unit to every
+leaf unit of the target composite object (root-level transfer); `send_out_state` receives its own branches, which
+are time-sliced to the stored event time first (also when the event is not confirmed). -/
+
+/-- `_time_slice_unit`: `position[d] = correct_position_entry(position[d] + velocity[d] * (event_time - time_stamp), d)`,
+`time_stamp.update(event_time)`; nothing for a unit without velocity -/
+def timeSliceUnit (o : Ops α) (c : Consts α) (et : Time α) (u : LUnit α) : LUnit α :=
+  match u.vel with
+  | none => u
+  | some v =>
+    let dt : α := match u.ts with
+      | some ts => Time.sub et ts
+      | none => o.ofInt 0   -- unreachable: an active unit carries a time stamp (AttributeError in the real code)
+    { u with pos := List.zipWith (fun p vd => pywrap o (p + vd * dt) c.L) u.pos v, ts := some et }
+
+/-- `_time_slice_all_units_in_state` (depth ≤ 2) -/
+def timeSliceState (o : Ops α) (c : Consts α) (et : Time α) (st : List (CNode α)) : List (CNode α) :=
+  st.map fun r => { r with unit := timeSliceUnit o c et r.unit,
+                           children := r.children.map fun cw => (timeSliceUnit o c et cw.1, cw.2) }
+
+/-- every velocity of a state, in state order (root, then its children) -/
+def velocities (st : List (CNode α)) : List (Option (List α)) :=
+  st.flatMap fun r => r.unit.vel :: r.children.map fun cw => cw.1.vel
+
+/-- accumulator of the loop over `_leaf_cnodes` in `_pass_composite_object_velocity`: the state, the registered
+non-leaf velocity changes, and the two lists `negative_velocity` / `velocity`, which
+`_register_velocity_change_leaf_cnode` scales IN PLACE by the parents' weights -/
+structure PassAcc (α : Type) where
+  st : List (CNode α)
+  changes : List (List Nat × List α)
+  neg : List α
+  vel : List α
+
+/-- one iteration of `for leaf_cnode in self._leaf_cnodes` -/
+def passStep (et : Time α) (localIds : List (List Nat)) (acc : PassAcc α) (r : LeafRef) : PassAcc α :=
+  match getLeaf acc.st r with
+  | none => acc
+  | some u =>
+    -- the parent cnode of the leaf (depth ≤ 2: the root): identifier, weight of the leaf, weight of the parent
+    let par : Option (List Nat × α × α) := match r.2, acc.st[r.1]? with
+      | some j, some root =>
+        some (root.unit.id, (match root.children[j]? with | some cw => cw.2 | none => root.weight), root.weight)
+      | _, _ => none
+    if localIds.contains u.id then
+      -- register(leaf_cnode, negative_velocity); velocity = None; time_stamp = None
+      let st' := setLeaf acc.st r { u with vel := none, ts := none }
+      match par with
+      | none => { acc with st := st' }
+      | some (pid, w, rw) =>
+        { st := st', changes := register acc.changes pid (acc.neg.map fun x => x * w),
+          neg := acc.neg.map fun x => x * rw, vel := acc.vel }
+    else
+      -- velocity = velocity.copy(); time_stamp = copy(event_time); register(leaf_cnode, velocity)
+      let st' := setLeaf acc.st r { u with vel := some acc.vel, ts := some et }
+      match par with
+      | none => { acc with st := st' }
+      | some (pid, w, rw) =>
+        { st := st', changes := register acc.changes pid (acc.vel.map fun x => x * w),
+          neg := acc.neg, vel := acc.vel.map fun x => x * rw }
+
+/-- `_construct_leaf_cnodes(); _construct_leaf_units_of_composite_objects(); _pass_composite_object_velocity()`
+on the (time-sliced) branches; `.error tok`: an assertion / exception of the real code -/
+def passComposite (o : Ops α) (c : Consts α) (et : Time α) (st : List (CNode α)) : Except String (List (CNode α)) :=
+  match constructComposite (leafUnits st) with
+  | none => .error "AssertionError"                 -- assert len(self._leaf_units) % 2 == 0
+  | some (locals, targets) =>
+    match locals.head? with
+    | none => .error "IndexError"                   -- self._local_leaf_units[0]
+    | some l0 =>
+      if !(locals.all fun l => l.vel == l0.vel) then .error "AssertionError"
+      else if !(targets.all fun t => t.vel.isNone) then .error "AssertionError"
+      else match l0.vel with
+        | none => .error "TypeError"                -- [-component for component in None]
+        | some v =>
+          let acc := (leafRefs st).foldl (passStep et (locals.map (·.id)))
+            ⟨st, [], v.map fun x => -x, v⟩
+          -- `_commit_non_leaf_velocity_changes`
+          .ok (acc.st.map fun r =>
+            { r with unit := commitUnit o c et acc.changes r.unit,
+                     children := r.children.map fun cw => (commitUnit o c et acc.changes cw.1, cw.2) })
+
+/-- the potential calls of the double loop of kind 7's `send_out_state`: per (active leaf, target leaf) pair first
+the bounding potential's `derivative`, then the potential's, with the active leaf's velocity and the separation
+`separation_vector(active.position, target.position)` -/
+def rootCalls (o : Ops α) (c : Consts α) (useCharge : Bool) (locals targets : List (LUnit α)) : List (Call α) :=
+  locals.flatMap fun a => targets.flatMap fun t =>
+    let sep := sepVec o c.L a.pos t.pos
+    let ch : List α := if useCharge then [a.charge, t.charge] else []
+    [⟨"B", a.vel.getD [], sep, ch⟩, ⟨"P", a.vel.getD [], sep, ch⟩]
+
+/-- `send_out_state(composite_object_root_cnodes)` of kinds 7 and 8.
+* kind 7: `ist` is the in-state stored (and time-sliced) by `send_event_time`, whose local/target leaf units the double
+  loop runs over; `bds` / `qs` are the values the bounding potential / the potential returned per pair, in loop order;
+  bound = `Σ max(0.0, ·)`, `factor_derivative = Σ q`; `bounding_potential_warning(bound, factor_derivative)`; the
+  branches are stored and time-sliced; `if factor_derivative > 0: if uniform(0, bound) < factor_derivative:` pass the
+  velocity of the composite object;
+* kind 8: no rates, no draw: time-slice the branches and pass the velocity. -/
+def sendRoot (o : Ops α) (c : Consts α) (kind : Nat) (useCharge : Bool) (et : Time α)
+    (ist branches : List (CNode α)) (bds qs : List α) (dr : Draw α) : Res α :=
+  let st1 := timeSliceState o c et branches
+  if kind == 8 then
+    match passComposite o c et st1 with
+    | .ok st' => .out st' true false [] [] none
+    | .error tok => .err tok
+  else
+    match constructComposite (leafUnits ist) with
+    | none => .err "AssertionError"
+    | some (locals, targets) =>
+      let calls := rootCalls o c useCharge locals targets
+      let bound := summedBound o bds
+      let fd := factorDerivative o qs
+      let w := warns o bound fd
+      if o.ofInt 0 < fd then
+        if dr.get o bound < fd then
+          match passComposite o c et st1 with
+          | .ok st' => .out st' true w calls [] (some bound)
+          | .error tok => .err tok
+        else .out st1 false w calls [] (some bound)
+      else .out st1 false w calls [] none
 
 end JF.Thin
